@@ -136,6 +136,38 @@ class C09(F.Check):
                             ks.append(k)
                             names[nm] = k.name
                         self.shifts.append((u1, u2, rp, rq, cr, names, tag, key))
+        # operations without affine meaning must not compile (compiler verdicts observed at lowering; one positive control per family)
+        self.noaffine = []
+        i2 = [("int32_t", "x"), ("int32_t", "y")]
+        d2 = [("double", "x"), ("double", "y")]
+        for nm, ret, args, body, must_compile in (
+                ("ctl_pt_minus_pt", "int32_t", i2, "return (meters_pt(x) - meters_pt(y)).in(meters);", True),
+                ("ctl_pt_plus_q", "int32_t", i2, "return (meters_pt(x) + meters(y)).in(meters_pt);", True),
+                ("pt_plus_pt", "int32_t", i2, "return (meters_pt(x) + meters_pt(y)).in(meters_pt);", False),
+                ("pt_plus_pt_temp", "double", d2, "return (celsius_pt(x) + kelvins_pt(y)).in(kelvins_pt);", False),
+                ("scalar_times_pt", "int32_t", i2, "return (x * meters_pt(y)).in(meters_pt);", False),
+                ("pt_times_scalar", "double", d2, "return (celsius_pt(x) * y).in(celsius_pt);", False),
+                ("pt_div_scalar", "double", d2, "return (celsius_pt(x) / y).in(celsius_pt);", False),
+                ("pt_times_pt", "int32_t", i2, "auto r = meters_pt(x) * meters_pt(y); (void)r; return 0;", False),
+                ("pt_times_q", "int32_t", i2, "auto r = meters_pt(x) * meters(y); (void)r; return 0;", False),
+                ("q_minus_pt", "int32_t", i2, "auto r = meters(x) - meters_pt(y); (void)r; return 0;", False),
+                ("neg_pt", "int32_t", i2, "auto r = -meters_pt(x); (void)r; return 0;", False),
+                ("pt_from_zero", "int32_t", i2, "QuantityPoint<Meters, int32_t> p{ZERO}; return p.in(meters_pt);", False),
+                ("pt_assign_zero", "int32_t", i2, "auto p = meters_pt(x); p = ZERO; return p.in(meters_pt);", False),
+                ("pt_eq_zero", "bool", i2, "return meters_pt(x) == ZERO;", False),
+                ("pt_lt_zero", "bool", i2, "return celsius_pt(x) < ZERO;", False),
+                ("pt_plus_zero", "int32_t", i2, "return (meters_pt(x) + ZERO).in(meters_pt);", None),   # adding the zero displacement: observed, either verdict
+                ("pt_as_quantity", "int32_t", i2, "Quantity<Meters, int32_t> q = meters_pt(x); return q.in(meters);", False),
+                ("quantity_as_pt", "int32_t", i2, "QuantityPoint<Meters, int32_t> p = meters(x); return p.in(meters_pt);", False),
+                ("pt_in_quantity_unit_slot", "int32_t", i2, "return meters(x).in(meters_pt);", False),
+                ("q_in_point_maker", "int32_t", i2, "return meters_pt(x).in(meters);", False),
+                ("pt_cmp_quantity", "bool", i2, "return meters_pt(x) < meters(y);", False),
+                ("pt_pluseq_pt", "int32_t", i2, "auto p = meters_pt(x); p += meters_pt(y); return p.in(meters_pt);", False),
+                ("pt_dim_mismatch_minus", "double", d2, "return (meters_pt(x) - celsius_pt(y)).in(meters);", False),
+                ("pt_dim_mismatch_cmp", "bool", d2, "return meters_pt(x) < celsius_pt(y);", False)):
+            k = F.Kernel("c09_noaffine_" + nm, ret, args, body, key={"probe": nm, "line": body, "must_compile": must_compile}, family="no_affine_meaning", native=False)
+            ks.append(k)
+            self.noaffine.append((k.name, must_compile))
         return ks
 
     def obligations(self, K):
@@ -281,6 +313,16 @@ class C09(F.Check):
                     return T.TRUE, T.and_(T.eq(a_.ub, b_.ub), T.or_(a_.ub, T.eq(a_.ret, b_.ret)))
                 obs.append(F.Ob("shift_%s:%s" % (nm, tag), xs, fnc, key=key, kernels=[names[nm], names[plain]],
                                 note="p += q / p -= q equal p + q / p - q when the point's unit and rep are the common ones"))
+        for name, must_compile in self.noaffine:
+            d = K[name].kernel.dropped
+            if must_compile is None:
+                self.extra_cov.setdefault("observed_either_way", {})[name] = "rejected" if d else "accepted"
+                continue
+
+            def nfn(K, name=name, must_compile=must_compile):
+                return T.TRUE, T.const_bool(bool(K[name].kernel.dropped) != must_compile)
+            obs.append(F.Ob("no_affine_meaning:" + name, [], nfn, kind="closed", key=dict(K[name].kernel.key, compiler_says=(d or "accepted")[:160]), kernels=[name],
+                            note="operations without affine meaning do not compile (positive controls do): compiler verdict observed at lowering"))
         return obs
 
 
